@@ -347,6 +347,12 @@ def reshape(x, shape, merge_chunks=True, limit=None):
 
     name = "reshape-" + tokenize(x, shape)
 
+    if x.size == 0 and x.npartitions > 1:
+        # There is no data to arrange (and reshape_rechunk cannot match up
+        # dimensions of length zero): every block is empty, and an empty block
+        # can be reshaped to any other empty shape
+        x = x.blocks[(0,) * x.ndim]
+
     if x.npartitions == 1:
         key = next(flatten(x.__dask_keys__()))
         new_key = (name,) + (0,) * len(shape)
